@@ -38,6 +38,7 @@ type Request struct {
 	ID  uint64
 	Op  string // run | analyze | print | transform | lex | ping
 	Rep int    `json:",omitempty"` // repeat the whole pipeline Rep times in this process (C14)
+	RerunCompiled int `json:",omitempty"` // VM: run the SAME compiled program this many more times on fresh VMs (a host may cache compiled programs)
 
 	Modules map[string]string
 	Entry   string
@@ -119,6 +120,13 @@ type RunResult struct {
 	Invs       []InvResult  `json:",omitempty"`
 	GoroutinesBefore, GoroutinesAfter int
 	LateWrites int // writes arriving after Wait() returned
+	Reruns     []Rerun `json:",omitempty"` // RerunCompiled: output and outcome of every further run of the same compiled program
+}
+
+type Rerun struct {
+	Writes  []string
+	Outcome Outcome
+	InitPanic string `json:",omitempty"`
 }
 
 type ProbeType struct {
